@@ -6,7 +6,7 @@ vnacal_free) against CalStore.tla.
                      the bounded search and the single-worker non-vacuity run
   build(ctx)         driver executable
   run(ctx, exe, tier, seed, ...) -> (issues, stats)
-                     bounded-exhaustive + random histories through the real
+                     bounded-exhaustive + random + bulk histories through the real
                      library, every call validated against CalStoreTrace
   replay(ctx, exe, path) -> issues
 
@@ -260,7 +260,8 @@ def _validate(ctx, tr, label, issues, stats):
         stats["counters"][k] = stats["counters"].get(k, 0) + v
 
 
-def run(ctx, exe, tier, seed, exh_depth=None, rand_cases=None, rand_len=None):
+def run(ctx, exe, tier, seed, exh_depth=None, rand_cases=None, rand_len=None,
+        bulk_cases=None):
     """Returns (issues, stats)."""
     if exh_depth is None:
         exh_depth = 2 if tier == "quick" else 3
@@ -308,6 +309,23 @@ def run(ctx, exe, tier, seed, exh_depth=None, rand_cases=None, rand_len=None):
     stats["rand_cases"] = rand_cases
     stats["rand_len"] = rand_len
 
+    # bulk histories: 20-40 handles, one vnacal_new_t using 10-20 distinct
+    # ones (its parameter table grows), deletion and re-use of held handles,
+    # the same unknowns solved by two vnacal_new_t on different grids
+    if bulk_cases is None:
+        bulk_cases = 24 if tier == "quick" else 800
+    paths, crashes = common.run_sharded(
+        exe, lambda a, b: ["bulk", str(seed), str(a), str(b)],
+        bulk_cases, ctx.work, "cs-bulk", _case_index,
+        nshards=min(vlib.NCPU, bulk_cases))
+    issues += issues_from_crashes(ctx, crashes, "bulk histories")
+    stats["crashes"] += len(crashes)
+    for p in paths:
+        common.strip_crashed_episodes(p)
+    tr = common.concat(paths, os.path.join(ctx.work, "cs-bulk-all.ndjson"))
+    _validate(ctx, tr, "bulk histories", issues, stats)
+    stats["bulk_cases"] = bulk_cases
+
     # the clauses that depend on the histories reaching certain situations
     # must not be vacuous on the implementation side either
     need = ["solve_ok", "addcal_ok", "addcal_replace", "solved_unknown_true",
@@ -335,6 +353,8 @@ def replay(ctx, exe, path):
     parts = cid.split(":")
     if parts[0] == "exh":
         args = ["exh", parts[1], parts[2], str(int(parts[2]) + 1)]
+    elif parts[0] == "bulk":
+        args = ["bulk", parts[1], parts[2], str(int(parts[2]) + 1)]
     else:
         args = ["rand", parts[1], parts[2], str(int(parts[2]) + 1), parts[3]]
     tp = os.path.join(ctx.work, "replay.ndjson")
